@@ -515,9 +515,14 @@ type Stats struct {
 
 // Explorer is the iterative context-bounding DFS.
 type Explorer struct {
-	Bound    int // max preemptions
-	MaxExecs int // 0 = unlimited
-	Setup    func()
+	// AllDeviationsCost makes every departure from the canonical choice (index 0: keep running the
+	// current thread, else the lowest thread id) cost one unit of Bound — also the otherwise free
+	// switches when the running thread blocks or exits. With many service threads the free switches
+	// alone are too many to enumerate; this bounds deviations from one canonical schedule instead.
+	AllDeviationsCost bool
+	Bound             int // max preemptions (deviations)
+	MaxExecs          int // 0 = unlimited
+	Setup             func()
 	// Check is called after every complete execution (oracle). Return non-empty string = violation.
 	Check func(x *Exec) string
 	// Stop is polled; returning true ends the exploration early (capped).
@@ -533,7 +538,7 @@ func (e *Explorer) preemptionsBefore(x *Exec, i int) int {
 	n := 0
 	for k := 0; k < i; k++ {
 		p := x.Points[k]
-		if p.RunningEnabled && p.Chosen != 0 { // a preemption, or a non-default alternative
+		if (p.RunningEnabled || e.AllDeviationsCost) && p.Chosen != 0 { // a preemption, or a non-default alternative
 			n++
 		}
 	}
@@ -588,7 +593,7 @@ func (e *Explorer) explore(prefix []int) bool {
 			continue
 		}
 		cost := e.preemptionsBefore(x, i)
-		if p.RunningEnabled {
+		if p.RunningEnabled || e.AllDeviationsCost {
 			cost++
 		}
 		if cost > e.Bound {
